@@ -920,7 +920,10 @@ impl World {
                     // anything (take a stream, read, …). Judged when the task was certainly not parked on a
                     // full accept / bind queue, the sink is not held and this is the first such event.
                     let not_parked = self.backlog[e][0] < self.opts[e].accept_cap && (self.opts[e].bind_cap == 0 || self.backlog[e][1] < self.opts[e].bind_cap);
-                    if !self.view[e].exited && self.view[e].terminated_by.is_none() && !self.sink_blocked[e] && not_parked && !self.in_batch {
+                    // (an end by error — an undecodable frame, a failing transport — is acted on whether or not the sink
+                    // takes anything: nothing is flushed then, the close is tried once and not waited for)
+                    let error_end = invalid_frame || matches!(t[1], "err" | "err2");
+                    if !self.view[e].exited && self.view[e].terminated_by.is_none() && (!self.sink_blocked[e] || error_end) && not_parked && !self.in_batch {
                         *self.mon.entry("exit-at-end/judged").or_insert(0) += 1;
                         if !evs.split("; ").any(|ev| ev.starts_with("exit ")) {
                             let msg = format!("endpoint {} was given `{}` (the connection has ended, its source yields nothing more; its receive loop was not waiting on a full queue, its sink accepts messages) and its task did not finish: every pending operation now waits for something the application may never do (events of the step: {})", NAMES[e], t.join(" "), if evs.is_empty() { "none" } else { evs });
@@ -1879,6 +1882,76 @@ fn drop_with_arrival_case(r: &mut Rng, focus: Focus) -> World {
     }
     t.extend([s(";"), s("dropmux")]);
     w.stim(e, &t);
+    fair_completion(&mut w, 20);
+    final_checks(&mut w);
+    w
+}
+
+/// C10 / C08: the connection ends by an error (a message that is not a valid frame, a failing transport)
+/// while replies and data are still queued behind a sink that takes nothing — the peer has stopped reading.
+/// The end is acted on at once all the same: nothing queued is owed to a peer after such an end.
+fn garbage_under_backpressure_case(r: &mut Rng, focus: Focus) -> World {
+    let opts = [gen_opts(r, focus), gen_opts(r, focus)];
+    let e = r.below(2) as usize;
+    let pe = 1 - e;
+    let mut w = World::new(opts);
+    for k in 0..2 {
+        let mut t = vec![s("rng")];
+        t.extend((0..8).map(|_| s(r.range(1, 0xffff_ffff))));
+        w.stim(k, &t);
+        w.view[k].rng_left = 8;
+    }
+    let n_streams = r.range(0, 2);
+    for _ in 0..n_streams {
+        let oe = r.below(2) as usize;
+        let req = w.next_req; w.next_req += 1; w.view[oe].rng_left -= 1;
+        w.stim(oe, &[s("open"), s(req), hexd(&r.bytes(2)), s(1000 + req)]);
+        for _ in 0..3 { while w.deliver_next(1 - oe) {} while w.deliver_next(oe) {} }
+        w.stim(1 - oe, &[s("accept")]);
+    }
+    // the peer stops reading: e's sink takes nothing (or only a message or two) from now on
+    w.sink_blocked[e] = true;
+    if r.chance(2, 3) { w.stim(e, &[s("sinkblock")]); } else { w.stim(e, &[s("sinkgrant"), s(r.range(1, 2))]); }
+    // things queue up at e: replies to the peer's frames, its own data
+    let live: Vec<usize> = (0..w.view[e].handles.len()).filter(|&h| w.view[e].handles[h].alive).collect();
+    let live_p: Vec<usize> = (0..w.view[pe].handles.len()).filter(|&h| w.view[pe].handles[h].alive).collect();
+    for k in 0..r.range(1, 4) {
+        match r.below(4) {
+            0 if !live.is_empty() => {
+                let h = *r.pick(&live);
+                let d = gen_payload(r, 0x60 + k as u8, w.view[e].handles[h].written.len());
+                let d = if d.is_empty() { vec![0x61] } else { d };
+                w.stim(e, &[s("write"), s(h), hexd(&d)]);
+            }
+            1 => {
+                // a request of the peer: its Acknowledge joins e's queue
+                let req = w.next_req; w.next_req += 1; w.view[pe].rng_left -= 1;
+                w.stim(pe, &[s("open"), s(req), hexd(&r.bytes(2)), s(1000 + req)]);
+                while w.deliver_next(e) {}
+            }
+            2 if !live_p.is_empty() => {
+                // data of the peer, read at once: the Acknowledge joins e's queue
+                let h = *r.pick(&live_p);
+                let d = gen_payload(r, 0x70 + k as u8, w.view[pe].handles[h].written.len());
+                let d = if d.is_empty() { vec![0x71] } else { d };
+                w.stim(pe, &[s("write"), s(h), hexd(&d)]);
+                while w.deliver_next(e) {}
+                for hh in live.clone() { w.stim(e, &[s("read"), s(hh), s(4096)]); }
+            }
+            _ => { w.stim(e, &[s("dgsend"), s(r.range(1, 9)), hexd(&r.bytes(2)), s(53), hexd(&[k as u8])]); }
+        }
+    }
+    // … and then the end, by error
+    match r.below(3) {
+        0 => { w.stim(e, &[s("deliver"), s("err")]); }
+        _ => {
+            w.injected = true;
+            let n = r.range(0, 5) as usize;
+            let mut b = r.bytes(n);
+            if !b.is_empty() { b[0] = *r.pick(&[0x79u8, 0x17, 0xf0, 0x78]); }
+            w.stim(e, &[s("deliver"), s("bin"), hexd(&b)]);
+        }
+    }
     fair_completion(&mut w, 20);
     final_checks(&mut w);
     w
@@ -3125,6 +3198,18 @@ fn main() {
             let mut r = base.fork(k);
             match catch(|| reopen_same_id_case(&mut r, focus)) {
                 Ok(w) => handle_world(w, "reopen-same-id", &mut rep, &mut drv),
+                Err(p) => rep.fail(FailKind::Impl, "harness-panic", &format!("panic outside a stimulus: {p}"), json!({})),
+            }
+        }
+    }
+    // the connection ends by an error while the sink takes nothing
+    if matches!(focus, Focus::C08 | Focus::C10) {
+        let n = match args.tier { Tier::Quick => 60, Tier::Thorough => 1500 };
+        let base = Rng::new(args.seed ^ fnv(focus.name().as_bytes()) ^ 0x6761_7262_6167);
+        for k in 0..n {
+            let mut r = base.fork(k);
+            match catch(|| garbage_under_backpressure_case(&mut r, focus)) {
+                Ok(w) => handle_world(w, "garbage-under-backpressure", &mut rep, &mut drv),
                 Err(p) => rep.fail(FailKind::Impl, "harness-panic", &format!("panic outside a stimulus: {p}"), json!({})),
             }
         }
